@@ -85,6 +85,7 @@ type GroupCase struct {
 	W     int      `json:"w"`
 	Group [8]uint8 `json:"group"`
 	Bytes []byte   `json:"bytes,omitempty"` // byte-group direction
+	Prev  []byte   `json:"prev,omitempty"`  // byte group passed to Unpack/Pack immediately before (history dependence)
 }
 
 func checkBytes(w int, b []byte) *Outcome {
@@ -97,6 +98,16 @@ func checkBytes(w int, b []byte) *Outcome {
 			return viol(fmt.Sprintf("C17/unpack-range/w=%d", w), "Unpack(width %d, % x) = %v has a value that does not fit the width", w, b, vals)
 		}
 	}
+	// reference unpack: value i is bits [i*w,(i+1)*w) of the little-endian byte string
+	var x uint32
+	for i := 0; i < w; i++ {
+		x |= uint32(b[i]) << uint(8*i)
+	}
+	for i := 0; i < 8; i++ {
+		if want := uint8((x >> uint(i*w)) & (1<<uint(w) - 1)); vals[i] != want {
+			return viol(fmt.Sprintf("C17/unpack-layout/w=%d", w), "Unpack(width %d, % x) = %v, value %d should be %d", w, b, vals, i, want)
+		}
+	}
 	again := parquet.VerifBitPack(w, vals)
 	if string(again) != string(b) {
 		return viol(fmt.Sprintf("C17/bytes-roundtrip/w=%d", w), "Pack(Unpack(% x)) = % x (width %d)", b, again, w)
@@ -107,6 +118,9 @@ func checkBytes(w int, b []byte) *Outcome {
 func checkC17Case(c *GroupCase) *Outcome {
 	return guard("C17", func() *Outcome {
 		if c.Bytes != nil {
+			if c.Prev != nil {
+				checkBytes(c.W, c.Prev)
+			}
 			return checkBytes(c.W, c.Bytes)
 		}
 		return checkGroup(c.W, &c.Group)
@@ -152,6 +166,39 @@ func TestC17(t *testing.T) {
 		recordX(statLine{P: "C17", H: fmt.Sprintf("tuples-w%d-%d", w, idx), N: n, DN: nt, L: []string{fmt.Sprintf("tuples/w=%d", w)}}, func() interface{} {
 			return map[string]interface{}{"width": w, "group": s, "packed": fmt.Sprintf("% x", parquet.VerifBitPack(w, s[:]))}
 		})
+		// history dependence: consecutive calls on groups that differ in exactly one bit (and on identical groups)
+		{
+			var np int64
+			stride := uint64(1021)
+			if thorough {
+				stride = 251
+			}
+			if w <= 2 {
+				stride = 1
+			}
+			b := make([]byte, w)
+			b2 := make([]byte, w)
+			for x := idx * stride; x < total; x += nsh * stride {
+				for i := 0; i < w; i++ {
+					b[i] = byte(x >> uint(8*i))
+				}
+				for bit := -1; bit < 8*w; bit++ {
+					copy(b2, b)
+					if bit >= 0 {
+						b2[bit/8] ^= 1 << uint(bit%8)
+					}
+					for _, bb := range [][]byte{b, b2} {
+						if o := guard("C17", func() *Outcome { return checkBytes(w, bb) }); o != nil {
+							o.Key = fmt.Sprintf("C17/history-dependent/w=%d", w)
+							o.Msg = fmt.Sprintf("after a call on % x: %s", b, o.Msg)
+							fail(&GroupCase{W: w, Bytes: append([]byte{}, bb...), Prev: append([]byte{}, b...)}, o)
+						}
+					}
+					np++
+				}
+			}
+			recordX(statLine{P: "C17", H: fmt.Sprintf("pairs-w%d-%d", w, idx), N: np, DN: np, L: []string{fmt.Sprintf("consecutive-neighbour-pairs/w=%d", w)}}, nil)
+		}
 		// byte-group direction: every w-byte group for w<=3 (w=4 follows from the bijection shown above when the tuple enumeration is complete)
 		if w <= 3 {
 			var nb int64
